@@ -27,6 +27,9 @@ pub enum EC {
     Nope,
 }
 
+/// `Rep::pad` value that stands for "no parameters member at all".
+pub const BARE: usize = 7;
+
 #[derive(Debug, Clone, Copy, PartialEq, Eq)]
 pub enum Kind {
     Plain,
@@ -47,6 +50,13 @@ impl Rep {
     pub fn bytes(&self) -> Vec<u8> {
         let mut v = if self.is_error {
             format!("{{\"error\":\"c.Fail\",\"parameters\":{{\"tag\":{}}}}}", self.tag).into_bytes()
+        } else if self.pad == BARE {
+            // a success reply without parameters (progress tick, method without outputs)
+            match self.continues {
+                None => "{}".to_string(),
+                Some(b) => format!("{{\"continues\":{b}}}"),
+            }
+            .into_bytes()
         } else {
             let c = match self.continues {
                 None => String::new(),
@@ -61,6 +71,8 @@ impl Rep {
     pub fn canon(&self) -> String {
         if self.is_error {
             format!("error:Fail{{tag:{}}}", self.tag)
+        } else if self.pad == BARE {
+            format!("reply:none,c={:?}", self.continues)
         } else {
             format!("reply:tag={},len={},c={:?}", self.tag, self.pad, self.continues)
         }
@@ -307,15 +319,15 @@ fn script_for(kinds: &[Kind], pick: &mut dyn FnMut(usize) -> usize) -> Vec<Rep> 
             Kind::Oneway => {}
             Kind::Plain => {
                 let e = pick(4);
-                out.push(Rep { tag, is_error: e == 0, continues: if e == 1 { Some(false) } else { None }, pad: pick(6) });
+                out.push(Rep { tag, is_error: e == 0, continues: if e == 1 { Some(false) } else { None }, pad: pick(8) });
             }
             Kind::More => {
                 let n = pick(4); // 0..3 continuing replies
                 for j in 0..n {
-                    out.push(Rep { tag: tag + 1 + j as u32, is_error: false, continues: Some(true), pad: pick(6) });
+                    out.push(Rep { tag: tag + 1 + j as u32, is_error: false, continues: Some(true), pad: pick(8) });
                 }
                 let e = pick(3);
-                out.push(Rep { tag: tag + 9, is_error: e == 0, continues: if e == 1 { Some(false) } else { None }, pad: pick(6) });
+                out.push(Rep { tag: tag + 9, is_error: e == 0, continues: if e == 1 { Some(false) } else { None }, pad: pick(8) });
             }
         }
     }
